@@ -538,11 +538,15 @@ def SelList.depth : SelList → Nat
 end
 
 mutual
-/-- every selection set below (and including) this one can merge -/
+/-- FieldsInSetCanMerge for every selection set strictly below this selection (the set the
+selection itself belongs to is checked by the caller; an inline fragment's selections are part of
+the enclosing set) -/
 def mergeAll (s : VSchema) (fuel : Nat) (parent : Str) : Sel → List VErr
   | .field _ name _ _ sub =>
     match s.field? parent name with
-    | some fd => if SelList.isNil sub then [] else mergeAllList s fuel (Ty.inner fd.ty) sub
+    | some fd =>
+      if SelList.isNil sub then []
+      else canMergeSet s fuel (collectList s (Ty.inner fd.ty) sub) ++ mergeAllList s fuel (Ty.inner fd.ty) sub
     | none => []
   | .spread _ _ => []
   | .inline tc _ sub => mergeAllList s fuel (tc.getD parent) sub
